@@ -145,6 +145,41 @@ def main():
         if bad:
             rep.fail("topo:" + l, "after `%s`: %s" % (l, bad), {"kind": "input", "line": l, "observed": parts[2], "cmd": "gohook depgraph"})
 
+    # ---- atomicity of AddDependency (the model's steps are atomic; the code relies on ctx.mu held across check + insert)
+    # (a) source fact: the lock is taken before the graph is touched and only released by the deferred Unlock
+    lf = run([hook, "lockfacts"], input="%s AddDependency\n" % os.path.join(REPO, "internal/context_v2/context.go"), check=True).stdout.strip()
+    # (b) concurrent edge attempts released by a barrier: every round's verdict vector must be explained by SOME sequential order
+    conc_sets = [[(0, 1), (1, 0)], [(0, 1), (1, 2), (2, 0)], [(1, 2), (2, 1), (0, 1), (0, 2)], [(0, 1), (1, 2), (2, 3), (3, 0)], [(0, 0), (0, 1), (1, 0)]]
+    rounds = 30000 if tier == "quick" else 400000
+    clines = ["%d %s" % (rounds, " ".join("%s>%s" % (name(a), name(b)) for a, b in es)) for es in conc_sets]
+    cgo = run([hook, "depgraph-conc"], input="".join(l + "\n" for l in clines), check=True, timeout=3000).stdout.strip().split("\n")
+    conc = {"rounds_per_edge_set": rounds, "edge_sets": len(conc_sets), "lockfacts": lf, "distinct_vectors": 0, "unexplained": 0}
+    conc_bad = False
+    for es, l, g in zip(conc_sets, clines, cgo):
+        left, _, right = g.partition("|")
+        allowed = set()
+        for perm in itertools.permutations(range(len(es))):
+            v = oracle_seq([es[i] for i in perm])[0]
+            byedge = dict(zip(perm, v))
+            allowed.add("".join(byedge[i] for i in range(len(es))))
+        for item in left.split():
+            vec, _, cnt = item.partition(":")
+            conc["distinct_vectors"] += 1
+            if vec not in allowed:
+                conc["unexplained"] += int(cnt); conc_bad = True
+                rep.fail("conc:" + l.split(" ", 1)[1] + ":" + vec,
+                         "concurrent AddDependency attempts `%s`: verdicts %s in %s of %d rounds — no sequential order of the attempts gives them (a cycle was admitted or an acyclic edge refused)"
+                         % (l.split(" ", 1)[1], vec, cnt, rounds),
+                         {"kind": "history", "edges": l.split(" ", 1)[1], "observed_verdicts": vec, "allowed": sorted(allowed), "rounds": rounds, "hits": int(cnt),
+                          "cmd": "echo '%s' | gohook depgraph-conc" % l})
+        if "cyclic=0 dropped=0" not in right:
+            conc_bad = True
+            rep.fail("conc-cyclic:" + l.split(" ", 1)[1], "concurrent AddDependency attempts `%s` left a cyclic graph / dropped modules from the order: %s" % (l.split(" ", 1)[1], right.strip()),
+                     {"kind": "history", "edges": l.split(" ", 1)[1], "observed": right.strip(), "cmd": "echo '%s' | gohook depgraph-conc" % l})
+    if lf != "Lock;Unlock;other=0" and not conc_bad:
+        rep.fail("tie:lock-discipline", "AddDependency no longer has the shape `mu.Lock(); defer mu.Unlock()` around check + insert (extracted: %s): the model's atomic step is not tied to the code" % lf,
+                 {"kind": "broken-obligation", "correspondence": "lockfacts(AddDependency) = Lock;Unlock;other=0", "observed": lf}, no_input=True)
+
     # ---- scheduler model sanity against the oracle: any schedule, same parsed set / verdict (model-only, feeds evidence)
     # ---- whole compiler: all digraphs on 3 modules
     masks = list(range(512))
@@ -236,7 +271,7 @@ def main():
                 "non-trivial = sequences in which at least one attempt must be rejected; whole compiler: digraphs on {main, mod1, mod2} incl. self-imports "
                 "(quick: seeded quarter; thorough: all 512, 3 repetitions under GOMAXPROCS 16/1/2) + chain/diamond/shared-leaf/long-cycle/repeated-import projects" % maxlen,
         "samples": lines[100:len(lines):max(1, len(lines) // 8)],
-        "exhaustive": tier != "quick", "model_vs_code_diffs": diffs[:10], "whole_compiler": wc,
+        "concurrent_add_dependency": conc, "exhaustive": tier != "quick", "model_vs_code_diffs": diffs[:10], "whole_compiler": wc,
     }
     write_evidence(PID, "proof", cov,
                    assumptions=["schedules of the real compiler are not forced in this tier (GOMAXPROCS variation + repetition); the scheduler theorems cover all interleavings of the model"],
